@@ -22,6 +22,26 @@ def showR (f : α → String) : R α → String
 
 def fill (n : Nat) : Bytes := List.replicate n 0xaa
 
+/-- `fresh`, `inplace` (the documented layouts: `dst` sized by the library's helper), or
+`fresh+K` / `fresh-K` / `inplace+K` / `inplace-K`: `dst` K bytes longer / shorter than
+documented (off contract; compared with the code, not judged by the property oracle). -/
+def parseLayout (s : String) : Option (String × Int) :=
+  match s.splitOn "+" with
+  | [l] =>
+    match l.splitOn "-" with
+    | [l] => if l = "fresh" ∨ l = "inplace" then some (l, 0) else none
+    | [l, k] => match k.toNat? with
+      | some k => if (l = "fresh" ∨ l = "inplace") ∧ 0 < k then some (l, -(k : Int)) else none
+      | none => none
+    | _ => none
+  | [l, k] => match k.toNat? with
+    | some k => if (l = "fresh" ∨ l = "inplace") ∧ 0 < k then some (l, (k : Int)) else none
+    | none => none
+  | _ => none
+
+/-- `n + d`, not below zero -/
+def resize (n : Nat) (d : Int) : Nat := ((n : Int) + d).toNat
+
 def step (t : List String) : String :=
   match t with
   | ["enclen", n] => match n.toNat? with
@@ -43,33 +63,44 @@ def step (t : List String) : String :=
   | ["cbcenc", lay, key, iv, pt] => match unhex key, unhex iv, unhex pt with
     | some key, some iv, some pt =>
       let n := cbcEncryptLen pt.length
-      if lay = "fresh" then showR hex (aesCBCEncrypt aesCipher (fill n) pt key iv)
-      else if lay = "inplace" then
-        showR hex (aesCBCEncrypt aesCipher (pt ++ fill (n - pt.length)) pt key iv)
-      else "bad-op"
+      match parseLayout lay with
+      | some ("fresh", d) => showR hex (aesCBCEncrypt aesCipher (fill (resize n d)) pt key iv)
+      | some ("inplace", d) =>
+        -- the buffer that holds the plaintext, grown (or not grown enough) to `n + d` bytes
+        let m := resize n d
+        if m < pt.length then "bad-op"
+        else showR hex (aesCBCEncrypt aesCipher (pt ++ fill (m - pt.length)) pt key iv)
+      | _ => "bad-op"
     | _, _, _ => "bad-op"
   | ["cbcdec", lay, key, iv, ct] => match unhex key, unhex iv, unhex ct with
     | some key, some iv, some ct =>
       let sh := fun (r : Int × Bytes) => toString r.1 ++ " " ++ hex r.2
-      if lay = "fresh" then
-        showR sh (aesCBCDecrypt aesCipher (.fresh (fill (cbcDecryptLen ct.length))) ct key iv)
-      else if lay = "inplace" then showR sh (aesCBCDecrypt aesCipher .inplace ct key iv)
-      else "bad-op"
+      match parseLayout lay with
+      | some ("fresh", d) =>
+        -- off-contract sizes are filled with the byte `|d|` so that a longer `dst` can end in
+        -- something that looks like a padding
+        let m := resize (cbcDecryptLen ct.length) d
+        let f := if d = 0 then fill m else List.replicate m (d.natAbs % 256)
+        showR sh (aesCBCDecrypt aesCipher (.fresh f) ct key iv)
+      | some ("inplace", 0) => showR sh (aesCBCDecrypt aesCipher .inplace ct key iv)
+      | _ => "bad-op"
     | _, _, _ => "bad-op"
   | ["gcmenc", lay, key, nonce, ad, pt] => match unhex key, unhex nonce, unhex ad, unhex pt with
     | some key, some nonce, some ad, some pt =>
       let n := gcmEncryptLen pt.length
-      if lay = "fresh" then showR hex (aesGCMEncrypt aesGCM (fill n) pt key nonce ad)
-      else if lay = "inplace" then
+      match parseLayout lay with
+      | some ("fresh", d) => showR hex (aesGCMEncrypt aesGCM (fill (resize n d)) pt key nonce ad)
+      | some ("inplace", 0) =>
         showR hex (aesGCMEncrypt aesGCM (pt ++ fill (n - pt.length)) pt key nonce ad)
-      else "bad-op"
+      | _ => "bad-op"
     | _, _, _, _ => "bad-op"
   | ["gcmdec", lay, key, nonce, ad, ct] => match unhex key, unhex nonce, unhex ad, unhex ct with
     | some key, some nonce, some ad, some ct =>
       let n := (gcmDecryptLen ct.length).toNat
-      if lay = "fresh" then showR hex (aesGCMDecrypt aesGCM (fill n) ct key nonce ad)
-      else if lay = "inplace" then showR hex (aesGCMDecrypt aesGCM (ct.take n) ct key nonce ad)
-      else "bad-op"
+      match parseLayout lay with
+      | some ("fresh", d) => showR hex (aesGCMDecrypt aesGCM (fill (resize n d)) ct key nonce ad)
+      | some ("inplace", 0) => showR hex (aesGCMDecrypt aesGCM (ct.take n) ct key nonce ad)
+      | _ => "bad-op"
     | _, _, _, _ => "bad-op"
   | _ => "bad-op"
 
